@@ -146,16 +146,31 @@ def spec_c17(case, trace):
     return None
 
 
+class Hang(RuntimeError):
+    def __init__(self, case):
+        RuntimeError.__init__(self, "the harness did not come back on `%s`: the loop thread is blocked (a blocking call on an fd the "
+                                    "loop believes non-blocking?)" % " ; ".join(case[1:]))
+        self.case = case
+
+
 def run_all(cases, have_drv=True):
     import concurrent.futures as cf
     def one(chunk):
         text = "\n".join("\n".join(c) for c in chunk) + "\n"
-        rc, impl, err = C.run_vh("asyncio", text, timeout=3000)
+        rc, impl, err = C.run_vh("asyncio", text, timeout=20 if len(chunk) == 1 else 240)
+        if rc == 124 and len(chunk) > 1:
+            # a run that does not come back: find the case
+            for c in chunk:
+                rc1, _, _ = C.run_vh("asyncio", "\n".join(c) + "\n", timeout=20)
+                if rc1 == 124:
+                    raise Hang(c)
+        if rc == 124 and len(chunk) == 1:
+            raise Hang(chunk[0])
         if rc != 0:
             raise RuntimeError("vh asyncio failed: " + err[-300:])
         model = None
         if have_drv:
-            rc, model, err = C.run_drv("asyncio", text, timeout=3000)
+            rc, model, err = C.run_drv("asyncio", text, timeout=600)
             if rc != 0:
                 raise RuntimeError("drv asyncio failed: " + err[-300:])
             model = split_cases(model.splitlines())
@@ -182,7 +197,14 @@ def comparable(case):
 
 def run(res, tier, seed, search=False, have_drv=True):
     cases = SPECIAL + C.load_case_corpus("C17", "io") + gen_cases(tier, seed, search)
-    impl, model = run_all(cases, have_drv)
+    try:
+        impl, model = run_all(cases, have_drv)
+    except Hang as ex:
+        d = C.write_replay(res.pid, {"case.io": "\n".join(ex.case) + "\n", "verdict.txt": str(ex) + "\n"})
+        res.violations.append(("C17 on the real adapter: %s" % ex, os.path.join(d, "case.io")))
+        res.cov["impl_monitor_failures"] += 1
+        res.cov["evaluations"] = len(cases)
+        return
     # isolated runs: one process per case
     for c in REMOVE_EXEC:
         try:
@@ -236,7 +258,11 @@ def run(res, tier, seed, search=False, have_drv=True):
 
 def replay(path):
     case = [l.rstrip("\n") for l in open(path) if l.strip()]
-    impl, model = run_all([case])
+    try:
+        impl, model = run_all([case])
+    except Hang as ex:
+        print(ex)
+        return 1
     v = spec_c17(case, impl[0])
     print("--- implementation\n" + "\n".join(impl[0]) + "\n--- model\n" + "\n".join(model[0]) + "\n--- C17 clauses: %s" % v)
     return 0 if v is None and (not comparable(case) or impl[0] == model[0]) else 1
